@@ -125,7 +125,7 @@ def main(run: Run):
     judge(run, WB, sd + rnd_wb[:few], "wbkf-strict", batch=1)
     # over the API the multi-cut DeleteStatement kills the server process: not executed there
     api_sd = [b for b in sd if '"seed:delstmt-multi"' not in b]
-    api_strict = [b for b in api_sd if '"seed:api-readback"' in b or '"seed:delpol-assigned"' in b]
+    api_strict = [b for b in api_sd if '"seed:api-readback' in b or '"seed:delpol-assigned"' in b]
     judge(run, API, (api_sd if thorough else api_strict) + rnd_api[:few], "apikf-strict", batch=1)
     judge(run, WB, rnd_wb[few:], "wbkf", cfg=KF, known=None)
     judge(run, API, ([] if thorough else [b for b in api_sd if b not in api_strict]) + rnd_api[few:], "apikf",
